@@ -5,7 +5,7 @@
 From Coq Require Import List ZArith Bool Lia.
 From SVC Require Import Base.AMap Base.Res Base.Dec Model.Types Model.Pricing
   Model.Handlers Model.EndBlock Model.Step Proofs.Inv Proofs.Lemmas Proofs.InvCtx Proofs.InvAll
-  Proofs.ReachRun Proofs.StepSpecs_window.
+  Proofs.ReachRun Proofs.StepSpecs_window Proofs.TraceMoney.
 Import ListNotations.
 Open Scope Z_scope.
 
@@ -89,4 +89,55 @@ Proof.
         destruct (IH q eq_refl) as (s0 & dt0 & q0 & B1 & B2 & B3 & B4 & B5 & B6 & B7).
         exists s0, dt0, q0. repeat split; try assumption; try apply B6. lia.
     + exists s, dt, q. repeat split; try assumption; try reflexivity. lia.
+Qed.
+
+(* ------------------------------------------------------------------ *)
+(* the log only grows *)
+
+Lemma log_handle_incl cfg s o s' : I_wd s -> handle cfg s o = Ok s' -> incl (log s) (log s').
+Proof.
+  intros Hwd H.
+  assert (Hd : (forall f t a, o <> OTransfer f t a) -> incl (log s) (log s')).
+  { intros Hnt. destruct (only_events_move_money cfg s o s' Hwd H Hnt) as (d & E & _).
+    rewrite E. intros e He. apply in_or_app. now right. }
+  destruct o; try (apply Hd; discriminate).
+  cbn [handle] in H. unfold h_transfer in H. inv_ok H.
+  apply transfer_frame in H. rewrite H. sproj. apply incl_refl.
+Qed.
+
+Lemma log_step_incl cfg s o : I_wd s -> incl (log s) (log (fst (step cfg s o))).
+Proof.
+  intros Hwd. unfold step. destruct (handle cfg s o) as [s'| |] eqn:E; cbn [fst]; try apply incl_refl.
+  eapply log_handle_incl; eauto.
+Qed.
+
+Lemma log_run_incl cfg s ops :
+  wf_cfg cfg -> Reach cfg s -> wf_run cfg s ops -> incl (log s) (log (run cfg s ops)).
+Proof.
+  intros Hcfg. revert s. induction ops as [|o t IH]; intros s HR Hw; [apply incl_refl|].
+  destruct Hw as (Ho & Ht). unfold run. cbn [fold_left]. fold (run cfg (fst (step cfg s o)) t).
+  eapply incl_tran; [apply log_step_incl, (inv_wd cfg), Reach_Inv; assumption|].
+  apply IH; [now apply Reach_step|exact Ht].
+Qed.
+
+(* heights never decrease *)
+Lemma height_step_mono cfg s o :
+  wf_cfg cfg -> Inv cfg s -> wf_op s o ->
+  height s <= height (fst (step cfg s o)) <= height s + 1.
+Proof.
+  intros Hcfg HI Ho. unfold step. destruct (handle cfg s o) as [s'| |] eqn:E; cbn [fst]; try lia.
+  assert (Hm : (forall dt, o <> OEndBlock dt) -> height s <= height s' <= height s + 1).
+  { intros Hne. destruct (msg_height_time cfg s o s' Hne E) as (Eh & _). lia. }
+  destruct o; try (apply Hm; discriminate).
+  cbn [handle] in E. injection E as <-. cbn [wf_op] in Ho. destruct Ho as (_ & Hb).
+  destruct (end_block_height_time cfg s dt Hcfg HI Hb) as (Eh & _). lia.
+Qed.
+
+Lemma height_run_mono cfg s ops :
+  wf_cfg cfg -> Reach cfg s -> wf_run cfg s ops -> height s <= height (run cfg s ops).
+Proof.
+  intros Hcfg. revert s. induction ops as [|o t IH]; intros s HR Hw; [unfold run; cbn [fold_left]; lia|].
+  destruct Hw as (Ho & Ht). unfold run. cbn [fold_left]. fold (run cfg (fst (step cfg s o)) t).
+  pose proof (height_step_mono cfg s o Hcfg (Reach_Inv cfg s Hcfg HR) Ho).
+  specialize (IH (fst (step cfg s o)) (Reach_step cfg s o HR Ho) Ht). lia.
 Qed.
